@@ -168,6 +168,28 @@ class Cell(object):
         return out, names
 
 
+
+class _Loop(object):
+    """A for-loop-like view of one generator of a comprehension (target + iter), for _full_range."""
+    def __init__(self, gen, node):
+        self.target, self.iter = gen.target, gen.iter
+        self.lineno = getattr(node, 'lineno', 0)
+
+
+def _single_return(fi):
+    body = [x for x in fi.node.body if not (isinstance(x, ast.Expr) and isinstance(x.value, ast.Constant))]
+    rets = lib.returns_of(fi.node)
+    if len(rets) == 1 and body and body[-1] is rets[0]:
+        return rets[0]
+    return None
+
+
+def _gen_of(fi, e):
+    """The comprehension / generator expression e stands for (through a single-definition local)."""
+    v = cm.deref(fi, e) if isinstance(e, ast.Name) else e
+    return v if isinstance(v, (ast.GeneratorExp, ast.ListComp)) else None
+
+
 def _nest(fi, depth):
     """The unique chain of `depth` nested for-loops at the top level of fi; returns the list of For nodes."""
     cur = fi.node.body
@@ -287,6 +309,7 @@ def _step6(r, idx, fi, fs):
                             words[k], how, '%+d * minval' % want[k] if want[k] else 'no change'), fi.loc,
                         expected='+= minval iff row covered; -= minval iff column not covered',
                         found='net %+d' % net)
+    _step6_counter(r, fi, S, env, lo, li, i, j)
     if amount_ok:
         calls = lib.calls_named(fi.node, '__find_smallest')
         cfg = cfg_of(fi.node)
@@ -294,9 +317,160 @@ def _step6(r, idx, fi, fs):
                 '__find_smallest() is not evaluated once before the sweep', fi.loc)
 
 
+
+# Cover configurations (covered rows R, covered columns K) with which the *reference* solver enters step 6 on an n x n matrix:
+# observed exhaustively on all 0/1/2 matrices up to 3 x 3 and all 0/1 matrices 4 x 4 (fixed oracle table, like DESIGN appendix A;
+# it equals {K >= 1, R + K <= n - 1}: every row keeps a zero, all zeros are covered, every star is covered exactly once).
+REACHABLE_STEP6 = {2: [(0, 1)], 3: [(0, 1), (0, 2), (1, 1)], 4: [(0, 1), (0, 2), (0, 3), (1, 1), (1, 2), (2, 1)]}
+
+
+def _step6_counter(r, fi, S, env, lo, li, i, j):
+    """`if events == 0: raise UnsolvableMatrix`: the per-cell contributions to the counter must not be able to cancel.
+
+    Reference: a cell contributes > 0 when its value really changes (covered row & covered column, or uncovered row &
+    uncovered column) and never < 0.  Then the counter is 0 only if no cell changed.  A negative contribution is checked
+    arithmetically on the cover configurations REACHABLE_STEP6 of the reference solver: with R covered rows and K covered columns
+    the total is a_TT*R*K + a_TF*R*(n-K) + a_FT*(n-R)*K + a_FF*(n-R)*(n-K); a zero total although (n-R)(n-K) > 0 cells change
+    makes the solver raise UnsolvableMatrix on a solvable matrix."""
+    label = 'Munkres.__step6: change counter'
+    raises = [x for x in lib.raises_of(fi.node) if not any(x is n for n in ast.walk(lo))]
+    ev = None
+    for rs in raises:
+        for g in cm.guards_of(rs, stop=fi.node):
+            m = nf.match('_E == 0', g)
+            if m is not None and isinstance(m['_E'], ast.Name):
+                ev = m['_E'].id
+    if ev is None:
+        if raises:
+            r.undecided(label, 'the raise after the sweep is not guarded by `<counter> == 0`', fi.loc)
+        else:
+            r.ok(label, 'no change counter: step 6 never reports the matrix unsolvable', fi.loc)
+        return
+    cell = Cell(fi, env,
+                atoms={'rc': '%s.row_covered[%s]' % (S, i), 'cc': '%s.col_covered[%s]' % (S, j),
+                       'dis': '%s.C[%s][%s] is DISALLOWED' % (S, i, j)}, wrong=[],
+                tracked={'ev': ev, 'C': '%s.C[%s][%s]' % (S, i, j)}, inner=li)
+    tab, names = cell.table(lo.body, fixed={'dis': False})
+    contrib = {}
+    for combo, (eff, term) in tab.items():
+        key = dict(zip(names, combo))
+        tot = 0
+        for t, op, v, s_ in eff:
+            if t != 'ev':
+                continue
+            c = nf.const_value(nf.canon(v), None)
+            if op not in ('Add', 'Sub') or not isinstance(c, (int, float)) or isinstance(c, bool):
+                r.undecided(label, 'counter update `%s` not recognised' % short(s_), lib.loc(fi, s_))
+                return
+            tot += c if op == 'Add' else -c
+        contrib[(key['rc'], key['cc'])] = tot
+    tt, tf, ft, ff = contrib[(True, True)], contrib[(True, False)], contrib[(False, True)], contrib[(False, False)]
+    if (min(tt, tf, ft, ff) >= 0 and ff > 0) or (max(tt, tf, ft, ff) <= 0 and ff < 0):
+        r.ok(label, 'contributions per cell (cov/cov %+g, cov/unc %+g, unc/cov %+g, unc/unc %+g) cannot cancel' % (tt, tf, ft, ff), fi.loc)
+        return
+    witness = None
+    for n, covers in sorted(REACHABLE_STEP6.items()):
+        for R, K in covers:
+            total = tt * R * K + tf * R * (n - K) + ft * (n - R) * K + ff * (n - R) * (n - K)
+            if total == 0 and witness is None:
+                witness = (n, R, K)
+    if witness is not None:
+        n, R, K = witness
+        r.violation(label, 'the counter that decides "Matrix cannot be solved!" adds %+g for a cell in a covered row and covered column, %+g '
+                    'for covered row/uncovered column, %+g for uncovered row/covered column and %+g for uncovered/uncovered: the '
+                    'contributions cancel -- e.g. with %d covered row(s) and %d covered column(s) of a %d x %d matrix the total is 0 although '
+                    '%d cells are lowered, so a solvable matrix is reported as UnsolvableMatrix instead of being solved'
+                    % (tt, tf, ft, ff, R, K, n, n, (n - R) * (n - K)), fi.loc,
+                    expected='> 0 for every cell that changes, never < 0', found='%+g / %+g / %+g / %+g' % (tt, tf, ft, ff))
+    else:
+        r.undecided(label, 'a cell contributes a negative amount to the change counter (%+g / %+g / %+g / %+g); no cancelling cover '
+                    'configuration among those of the reference table (n <= 4) was found, but none is excluded' % (tt, tf, ft, ff), fi.loc)
+
+
+def _find_smallest_fold(r, idx, fi, S, env):
+    """__find_smallest written as a fold over a comprehension: min([init] + cells) / min(cells, default=) / functools.reduce."""
+    label = 'Munkres.__find_smallest'
+    sr = _single_return(fi)
+    if sr is None or not isinstance(sr.value, ast.Call):
+        return False
+    call = sr.value
+    name = nf.callee_name(call)
+    cells, fold = None, None
+    if name in ('min', 'max', 'amin', 'amax') and call.args:
+        a = call.args[0]
+        parts = [a]
+        if isinstance(a, ast.BinOp) and isinstance(a.op, ast.Add):
+            parts = [a.left, a.right]
+        gens = [g for g in (_gen_of(fi, x) for x in parts) if g is not None]
+        if len(gens) == 1:
+            cells, fold = gens[0], ('min' if name in ('min', 'amin') else 'max')
+    elif name == 'reduce' and len(call.args) >= 2 and isinstance(call.args[0], ast.Lambda) and len(call.args[0].args.args) == 2:
+        lam = call.args[0]
+        acc, v = [x.arg for x in lam.args.args]
+        cells = _gen_of(fi, call.args[1])
+        b = nf.canon(lam.body)
+        if isinstance(b, ast.IfExp):
+            t = nf.canon(b.test)
+            if nf.match('%s < %s' % (v, acc), t) is not None or nf.match('%s <= %s' % (v, acc), t) is not None:
+                fold = 'min' if (cm.is_name(b.body, v) and cm.is_name(b.orelse, acc)) else 'max' if (cm.is_name(b.body, acc) and cm.is_name(b.orelse, v)) else None
+            elif nf.match('%s < %s' % (acc, v), t) is not None or nf.match('%s <= %s' % (acc, v), t) is not None:
+                fold = 'max' if (cm.is_name(b.body, v) and cm.is_name(b.orelse, acc)) else 'min' if (cm.is_name(b.body, acc) and cm.is_name(b.orelse, v)) else None
+        elif cm.is_call_to(b, 'min', 2):
+            fold = 'min'
+        elif cm.is_call_to(b, 'max', 2):
+            fold = 'max'
+    if cells is None or fold is None:
+        return False
+    if len(cells.generators) != 2 or not all(isinstance(g.target, ast.Name) for g in cells.generators):
+        raise AnalysisError('__find_smallest: cell comprehension `%s` not recognised' % short(cells, 80))
+    g0, g1 = cells.generators
+    i, j = g0.target.id, g1.target.id
+    _full_range(r, fi, env, [_Loop(g0, sr), _Loop(g1, sr)], label, S)
+    construct = label + ': candidate cells'
+    if fold == 'max':
+        r.violation(construct, 'the fold keeps the *largest* candidate (`%s`): the maximum is returned' % short(call, 80), fi.loc)
+        return True
+    if nf.match('%s.C[%s][%s]' % (S, i, j), _sub(cells.elt, env)) is None:
+        if nf.match('%s.C[%s][%s]' % (S, j, i), _sub(cells.elt, env)) is not None:
+            r.violation(construct, 'the matrix is read transposed (`%s`)' % short(cells.elt), fi.loc)
+        else:
+            r.undecided(construct, 'cell expression `%s`' % short(cells.elt), fi.loc)
+        return True
+    cell = Cell(fi, env,
+                atoms={'rc': '%s.row_covered[%s]' % (S, i), 'cc': '%s.col_covered[%s]' % (S, j),
+                       'nd': '%s.C[%s][%s] is not DISALLOWED' % (S, i, j)},
+                wrong=[('%s.row_covered[%s]' % (S, j), 'row cover is looked up with the column index'),
+                       ('%s.col_covered[%s]' % (S, i), 'column cover is looked up with the row index')], tracked={})
+    conds = [_sub(c, env) for g in cells.generators for c in g.ifs]
+    bad = False
+    try:
+        for rc in (True, False):
+            for cc in (True, False):
+                taken = all(cell.truth(c, {'rc': rc, 'cc': cc, 'nd': True}) for c in conds)
+                should = (not rc) and (not cc)
+                if taken != should:
+                    bad = True
+                    r.violation(construct, 'a cell with row %scovered and column %scovered %s the minimum; step 6 needs the smallest value '
+                                'among cells whose row AND column are both uncovered' % ('' if rc else 'un', '' if cc else 'un',
+                                                                                         'enters' if taken else 'is ignored for'), fi.loc,
+                                expected='not row_covered[i] and not col_covered[j]')
+        if not bad and all(cell.truth(c, {'rc': False, 'cc': False, 'nd': False}) for c in conds):
+            bad = True
+            r.undecided(construct, 'DISALLOWED cells are not excluded from the fold', fi.loc)
+    except Stop:
+        for msg, e in cell.violations:
+            r.violation(construct, msg + ' (`%s`)' % short(e), fi.loc)
+        return True
+    if not bad:
+        r.ok(construct, 'minimum (fold) over cells with uncovered row and uncovered column', fi.loc)
+    return True
+
+
 def _find_smallest(r, idx, fi):
     S = fi.params[0]
     env = _inline(fi)
+    if not any(isinstance(x, ast.For) for x in fi.node.body) and _find_smallest_fold(r, idx, fi, S, env):
+        return
     lo, li = _nest(fi, 2)
     i, j = lo.target.id, li.target.id
     label = 'Munkres.__find_smallest'
@@ -817,9 +991,47 @@ def _scans(r, idx, meth):
         if bind and S != outer_fi.params[0]:
             env[S] = ast.Name(id=outer_fi.params[0], ctx=ast.Load())
             S = outer_fi.params[0]
+        label = 'Munkres.%s' % name
+        sr = _single_return(fi)
+        if sr is not None and cm.is_call_to(sr.value, 'next') and sr.value.args and _gen_of(fi, sr.value.args[0]) is not None \
+                and not any(isinstance(x, ast.For) for x in fi.node.body):
+            # first match of a generator, default when there is none  ==  the search loop with break
+            gen = _gen_of(fi, sr.value.args[0])
+            dflt = sr.value.args[1] if len(sr.value.args) > 1 else None
+            if len(gen.generators) != 1 or not isinstance(gen.generators[0].target, ast.Name):
+                raise AnalysisError('%s: generator `%s` not recognised' % (name, short(gen)))
+            g0 = gen.generators[0]
+            k = g0.target.id
+            _full_range(r, fi, env, [_Loop(g0, sr)], label, S)
+            good = '%s.marked[%s][%s]' % ((S, p, k) if axis == 'row' else (S, k, p))
+            swapped = '%s.marked[%s][%s]' % ((S, k, p) if axis == 'row' else (S, p, k))
+            other = 2 if mark == 1 else 1
+            cell = Cell(fi, env, atoms={'hit': '%s == %d' % (good, mark)},
+                        wrong=[('%s == %d' % (good, other), 'the scan looks for %s zeros (mark %d) instead of %s zeros (mark %d)' % (
+                            'primed' if other == 2 else 'starred', other, 'primed' if mark == 2 else 'starred', mark)),
+                               ('%s == %d' % (swapped, mark), 'the scan runs along the %s instead of the %s' % (
+                                   'column' if axis == 'row' else 'row', axis))], tracked={})
+            construct = label + ': scan'
+            try:
+                conds = [_sub(c, env) for c in g0.ifs]
+                t_hit = all(cell.truth(c, {'hit': True}) for c in conds) and bool(conds)
+                t_miss = all(cell.truth(c, {'hit': False}) for c in conds) and bool(conds)
+            except Stop:
+                for msg, e in cell.violations:
+                    r.violation(construct, msg + ' (`%s`)' % short(e), fi.loc)
+                continue
+            if not cm.is_name(gen.elt, k):
+                r.violation(construct, 'the scan reports `%s`, not the index of the %s it finds' % (short(gen.elt), word), fi.loc)
+            elif dflt is None or nf.const_value(nf.canon(dflt), None) != -1:
+                r.violation(construct, '"not found" is not reported as -1 (default `%s`)' % short(dflt), fi.loc)
+            elif t_hit and not t_miss:
+                r.ok(construct, 'index of the first %s in the %s (generator + next), -1 when there is none' % (word, axis), fi.loc)
+            else:
+                r.violation(construct, 'the scan %s' % ('does not select cells that hold a %s' % word if not t_hit else
+                                                       'selects cells that are not a %s' % word), fi.loc)
+            continue
         (lp,) = _nest(fi, 1)
         k = lp.target.id
-        label = 'Munkres.%s' % name
         _full_range(r, fi, env, [lp], label, S)
         tail_rets = [x for x in lib.returns_of(fi.node) if not any(x is n for n in ast.walk(lp))]
         if len(tail_rets) != 1:
